@@ -483,6 +483,75 @@ def resize_probe(p, fresh):
     return probs
 
 
+def copy_probe(make, observe, grow=("volume", "area")):
+    """A copy of a shape (copy.deepcopy, a pickle round trip; copy.copy for the observables only) is a shape with the same observables, and
+    the deep ones are INDEPENDENT shapes: resizing and moving the copy leaves every observable of the original as it was, and the other way
+    round.  make(): builds the shape afresh; observe(shape): dict name -> array of deterministic observables.  Returns a list of problems."""
+    import copy
+    import pickle
+    import numpy as np
+    probs = []
+
+    def obs(s):
+        try:
+            return {k: np.asarray(v, float) for k, v in observe(s).items()}
+        except Exception as e:  # noqa: BLE001
+            return {"_raised": type(e).__name__}
+
+    def diff(a, b):
+        if "_raised" in a or "_raised" in b:
+            return None if a.get("_raised") == b.get("_raised") else "observing raised %s / %s" % (a.get("_raised"), b.get("_raised"))
+        for k in a:
+            x, y = a[k], b[k]
+            if x.shape != y.shape or not np.allclose(x, y, rtol=1e-11, atol=1e-11 * (1 + float(np.max(np.abs(x))) if x.size else 1), equal_nan=True):
+                return "%s: %s against %s" % (k, np.round(x, 9).ravel()[:6].tolist(), np.round(y, 9).ravel()[:6].tolist())
+        return None
+
+    def resize(s, f):
+        for n in grow:
+            if hasattr(type(s), n) and getattr(type(s), n).fset is not None:
+                setattr(s, n, float(getattr(s, n)) * f)
+                return True
+        return False
+    for how, mk in (("copy.deepcopy", copy.deepcopy), ("pickle round trip", lambda s: pickle.loads(pickle.dumps(s))), ("copy.copy", copy.copy)):
+        try:
+            p = make()
+            o0 = obs(p)
+            if "_raised" in o0:
+                return probs
+            c = mk(p)
+        except Exception as e:  # noqa: BLE001
+            probs.append("%s of a %s raised %s" % (how, type(p).__name__, type(e).__name__))
+            continue
+        if type(c) is not type(p):
+            probs.append("%s of a %s is a %s" % (how, type(p).__name__, type(c).__name__))
+            continue
+        d = diff(o0, obs(c))
+        if d:
+            probs.append("%s reports other values than its original: %s" % (how, d))
+            continue
+        if how == "copy.copy":
+            continue
+        try:
+            if not resize(c, 8.0 if "volume" in grow[:1] else 4.0):
+                continue
+        except Exception:  # noqa: BLE001
+            continue
+        d = diff(o0, obs(p))
+        if d:
+            probs.append("resizing the %s changed the ORIGINAL: %s" % (how, d))
+            continue
+        oc = obs(c)
+        try:
+            resize(p, 0.5)
+        except Exception:  # noqa: BLE001
+            continue
+        d = diff(oc, obs(c))
+        if d:
+            probs.append("resizing the original changed its %s: %s" % (how, d))
+    return probs
+
+
 def face_area_forms(p, all_areas):
     """get_face_area has several call forms (None / one index / a sequence of indices; ConvexPolyhedron also "total"): they must select
     from the per-face list.  Returns a list of problems (empty when consistent).  The sequence is a reversed, strided selection, so that a
